@@ -20,6 +20,7 @@
 -/
 import MitmVerif.Lemmas.C48Body
 import MitmVerif.Lemmas.C48Raw
+import MitmVerif.Lemmas.C48Argv
 namespace MitmVerif.Props.C48
 open MitmVerif MitmVerif.C48 MitmVerif.C48.Sh MitmVerif.Lemmas.C48
 
@@ -44,10 +45,11 @@ private theorem run_tail_q (hex : Bool) (args : List Bytes) (x : Bytes) :
   rw [run_of_steps hex _ s' ((args ++ [[45, 100], x]).map mkWord) h' hm hf (by simp [hfin, mkWord])]
   exact interp_plain _
 
-private theorem run_tail_s (hex : Bool) (args : List Bytes) (fmt out : Bytes) (hp : printfFmt hex fmt = some out) :
+private theorem run_tail_s (hex : Bool) (args : List Bytes) (fmt out : Bytes) (hp : printfFmt hex fmt = some out)
+    (hdash : fmt.head? ≠ some 45) :
     run hex (joinSp (args.map quote) ++ [32, 45, 100, 32] ++ (sSubstOpen ++ quote fmt ++ sSubstClose)) =
       some ⟨args ++ [[45, 100], stripNl out], none⟩ := by
-  obtain ⟨s', h, hm, hf, hfin⟩ := run_tail_subst hex args [45, 100] ⟨[45, 100], false⟩ (flag_d hex) fmt out hp
+  obtain ⟨s', h, hm, hf, hfin⟩ := run_tail_subst hex args [45, 100] ⟨[45, 100], false⟩ (flag_d hex) fmt out hp hdash
   have h' : steps hex St.init (joinSp (args.map quote) ++ [32, 45, 100, 32] ++
       (sSubstOpen ++ quote fmt ++ sSubstClose)) = some s' := by simpa using h
   rw [run_of_steps hex _ s' ((args ++ [[45, 100], stripNl out]).map mkWord) h' hm hf (by simp [hfin, mkWord])]
@@ -61,10 +63,11 @@ private theorem run_here_q (hex : Bool) (args : List Bytes) (x : Bytes) :
   rw [run_of_steps hex _ s' (args.map mkWord ++ [⟨sHere, true⟩, ⟨x, false⟩]) h' hm hf (by simp [hfin])]
   exact interp_here args x
 
-private theorem run_here_s (hex : Bool) (args : List Bytes) (fmt out : Bytes) (hp : printfFmt hex fmt = some out) :
+private theorem run_here_s (hex : Bool) (args : List Bytes) (fmt out : Bytes) (hp : printfFmt hex fmt = some out)
+    (hdash : fmt.head? ≠ some 45) :
     run hex (joinSp (args.map quote) ++ [32, 60, 60, 60, 32] ++ (sSubstOpen ++ quote fmt ++ sSubstClose)) =
       some ⟨args, some (stripNl out ++ [10])⟩ := by
-  obtain ⟨s', h, hm, hf, hfin⟩ := run_tail_subst hex args [60, 60, 60] ⟨sHere, true⟩ (flag_here hex) fmt out hp
+  obtain ⟨s', h, hm, hf, hfin⟩ := run_tail_subst hex args [60, 60, 60] ⟨sHere, true⟩ (flag_here hex) fmt out hp hdash
   have h' : steps hex St.init (joinSp (args.map quote) ++ [32, 60, 60, 60, 32] ++
       (sSubstOpen ++ quote fmt ++ sSubstClose)) = some s' := by simpa using h
   rw [run_of_steps hex _ s' (args.map mkWord ++ [⟨sHere, true⟩, ⟨stripNl out, false⟩]) h' hm hf (by simp [hfin])]
@@ -74,7 +77,7 @@ private theorem cfc_plain (t : Bytes) (h : hasCtl t = false) : contentForConsole
   simp [contentForConsole, h]
 
 private theorem cfc_ctl (t : Bytes) (h : hasCtl t = true) :
-    contentForConsole t = sSubstOpen ++ quote (t.flatMap escByte) ++ sSubstClose := by
+    contentForConsole t = sSubstOpen ++ quote (escText t) ++ sSubstClose := by
   simp [contentForConsole, h, sSubstOpen, sSubstClose]
 
 /-! ### curl -/
@@ -94,7 +97,8 @@ theorem curl_body_plain (hex p : Bool) (addr : Option Bytes) (r : Req) (t : Byte
     (hc : hasCtl t = false) :
     ∃ cmd, curlCommand p addr r = some cmd ∧
       run hex cmd = some ⟨curlArgs p addr r ++ [[45, 100], t], none⟩ := by
-  refine ⟨_, by simp [curlCommand, hb], ?_⟩
+  refine ⟨joinSp ((curlArgs p addr r).map quote) ++ [32, 45, 100, 32] ++ contentForConsole t,
+    by simp [curlCommand, hb], ?_⟩
   rw [cfc_plain t hc]
   exact run_tail_q hex _ t
 
@@ -104,18 +108,20 @@ theorem curl_body_ctl_bash (p : Bool) (addr : Option Bytes) (r : Req) (t : Bytes
     (hc : hasCtl t = true) :
     ∃ cmd, curlCommand p addr r = some cmd ∧
       run true cmd = some ⟨curlArgs p addr r ++ [[45, 100], stripNl t], none⟩ := by
-  refine ⟨_, by simp [curlCommand, hb], ?_⟩
+  refine ⟨joinSp ((curlArgs p addr r).map quote) ++ [32, 45, 100, 32] ++ contentForConsole t,
+    by simp [curlCommand, hb], ?_⟩
   rw [cfc_ctl t hc]
-  exact run_tail_s true _ _ t (printf_esc_hex t)
+  exact run_tail_s true _ _ t (printf_escText_hex t) (escText_head t)
 
 /-- … under a printf without `\x` (dash): every control byte arrives spelled `\xHH` -/
 theorem curl_body_ctl_dash (p : Bool) (addr : Option Bytes) (r : Req) (t : Bytes) (hb : r.body = .text t)
     (hc : hasCtl t = true) :
     ∃ cmd, curlCommand p addr r = some cmd ∧
       run false cmd = some ⟨curlArgs p addr r ++ [[45, 100], stripNl (t.flatMap dashByte)], none⟩ := by
-  refine ⟨_, by simp [curlCommand, hb], ?_⟩
+  refine ⟨joinSp ((curlArgs p addr r).map quote) ++ [32, 45, 100, 32] ++ contentForConsole t,
+    by simp [curlCommand, hb], ?_⟩
   rw [cfc_ctl t hc]
-  exact run_tail_s false _ _ _ (printf_esc_nohex t)
+  exact run_tail_s false _ _ _ (printf_escText_nohex t) (escText_head t)
 
 /-- the statement "for bodies that are valid text — exactly that body", for a shell `hex` and a text `t` -/
 def BodyExact (hex : Bool) (t : Bytes) : Prop :=
@@ -159,38 +165,18 @@ theorem body_exact_counterexample_dash : ¬ BodyExact false [97, 1, 98] := by
   revert h2'
   decide
 
-/-! ### what the argv means to curl -/
+/-- a body that starts with `-` (fixed in /repo: the dash travels as `\055`) is exact under bash -/
+example : BodyExact true [45, 1] := body_exact_partial _ _ (Or.inr ⟨rfl, by decide⟩)
 
-private theorem decode_headers : ∀ (hs : List (Bytes × Bytes)) (rest : List Bytes) (c : Curl),
-    decodeCurlArgs (curlHeaderArgs hs ++ rest) c =
-      decodeCurlArgs rest { c with
-        headers := c.headers ++ (hs.filter (fun h => lname h.1 ≠ sAE)).map headerArg,
-        compressed := c.compressed || hs.any (fun h => lname h.1 = sAE) } := by
-  intro hs
-  induction hs with
-  | nil => intro rest c; simp [curlHeaderArgs]
-  | cons h r ih =>
-    intro rest c
-    by_cases hae : lname h.1 = sAE
-    · simp only [curlHeaderArgs, hae, if_true, List.append_assoc, List.singleton_append]
-      rw [decodeCurlArgs]
-      simp only [show ¬ (sCompressed = sH) by decide, show ¬ (sCompressed = sX) by decide,
-        show ¬ (sCompressed = sD) by decide, show ¬ (sCompressed = sResolve) by decide, if_false, if_true]
-      rw [ih]
-      simp [hae]
-    · simp only [curlHeaderArgs, hae, if_false, List.append_assoc, List.cons_append, List.nil_append]
-      rw [decodeCurlArgs]
-      simp only [if_true]
-      rw [ih]
-      simp [hae, List.append_assoc]
+/-! ### what the argv means to curl -/
 
 /-- the `-d VALUE` the exporter appends for a text body, as argv -/
 def dataArgs : Option Bytes → List Bytes
   | none => []
   | some v => [sD, v]
 
-/-- **argv encodes method, URL and header set.** For every request (URL not starting with `-`) and whatever value
-    travels with `-d`: curl's reading of the exported argv has the request's method (`-X`, and without `-X` curl's own
+/-- **argv encodes method, URL and header set.** For every request whose URL does not start with `-`, and whatever
+    value travels with `-d`: curl's reading of the exported argv has the request's method (`-X`; without `-X` curl's own
     default agrees with it), exactly one URL — the request's —, one `-H` line per remaining header in order (plus
     `content-length: 0` for a body-less non-GET request), `--compressed` iff an Accept-Encoding header was present, and
     data iff the request has a body. -/
@@ -201,84 +187,43 @@ theorem argv_encodes_method_url_headers (p : Bool) (addr : Option Bytes) (r : Re
       c.headers = ((popHeaders r.host r.headers).filter (fun h => lname h.1 ≠ sAE)).map headerArg ++
         (if r.method ≠ sGET ∧ r.body = .none then [sCL0] else []) ∧
       c.compressed = (popHeaders r.host r.headers).any (fun h => lname h.1 = sAE) := by
-  have hurlopt : ¬ (r.url = sH) ∧ ¬ (r.url = sX) ∧ ¬ (r.url = sD) ∧ ¬ (r.url = sResolve) ∧ ¬ (r.url = sCompressed) := by
-    refine ⟨?_, ?_, ?_, ?_, ?_⟩ <;> (intro h; rw [h] at hurl; revert hurl; decide)
-  obtain ⟨u1, u2, u3, u4, u5⟩ := hurlopt
-  -- the url and data part
-  have htail : ∀ c : Curl, decodeCurlArgs ([r.url] ++ dataArgs d) c =
-      some { c with urls := c.urls ++ [r.url], data := match d with | some v => some v | none => c.data } := by
-    intro c
-    rw [List.singleton_append, decodeCurlArgs]
-    simp only [u1, u2, u3, u4, u5, hurl, if_false]
-    cases d with
-    | none => simp [dataArgs, decodeCurlArgs]
-    | some v => simp [dataArgs, decodeCurlArgs, sD]
-  -- resolve part
-  have hres : ∀ (rest : List Bytes) (c : Curl), ∃ rs, decodeCurlArgs
-      ((match addr with
-        | some a => if p = true ∧ ¬ a.isEmpty = true ∧ r.prettyHost ≠ a then
-            [sResolve, r.prettyHost ++ [58] ++ decBytes r.port ++ [58, 91] ++ a ++ [93]] else []
-        | none => []) ++ rest) c = decodeCurlArgs rest { c with resolve := c.resolve ++ rs } := by
-    intro rest c
-    cases addr with
-    | none => exact ⟨[], by simp⟩
-    | some a =>
-      by_cases hcnd : p = true ∧ ¬ a.isEmpty = true ∧ r.prettyHost ≠ a
-      · refine ⟨[r.prettyHost ++ [58] ++ decBytes r.port ++ [58, 91] ++ a ++ [93]], ?_⟩
-        simp only [hcnd, and_self, if_true, List.cons_append, List.nil_append]
-        rw [decodeCurlArgs]
-        simp [show ¬ (sResolve = sH) by decide, show ¬ (sResolve = sX) by decide, show ¬ (sResolve = sD) by decide]
-      · exact ⟨[], by simp [hcnd]⟩
-  unfold decodeCurl curlArgs
-  simp only [List.cons_append, List.nil_append, List.append_assoc]
-  obtain ⟨rs, hrs⟩ := hres (curlHeaderArgs (popHeaders r.host r.headers) ++
-      ((if r.method ≠ sGET then
-          (if r.body = .none then [sH, sCL0] else []) ++ [sX, r.method]
-        else if r.body ≠ .none then [sX, sGET] else []) ++ ([r.url] ++ dataArgs d))) {}
-  simp only [sResolve, sH, sX, sCL0, sGET] at hrs ⊢
-  rw [hrs, decode_headers]
-  by_cases hm : r.method = sGET
-  · by_cases hb : r.body = .none
-    · have hdn : d = none := by
-        cases d with
-        | none => rfl
-        | some v => simp [hb] at hd
-      subst hdn
-      simp only [hm, hb, sGET, ne_eq, not_true_eq_false, if_false, List.nil_append]
-      rw [htail]
-      refine ⟨_, rfl, ?_⟩
-      simp [Curl.effMethod, sGET]
-    · simp only [hm, hb, sGET, ne_eq, not_true_eq_false, not_false_eq_true, if_false, if_true, List.cons_append,
-        List.nil_append]
-      rw [decodeCurlArgs]
-      simp only [show ¬ (([45, 88] : Bytes) = [45, 72]) by decide, if_false, if_true]
-      rw [htail]
-      refine ⟨_, rfl, ?_⟩
-      cases d with
-      | none => simp [hb] at hd
-      | some v => simp [Curl.effMethod, hm, sGET]
-  · by_cases hb : r.body = .none
-    · have hdn : d = none := by
-        cases d with
-        | none => rfl
-        | some v => simp [hb] at hd
-      subst hdn
-      simp only [hm, hb, sGET, ne_eq, not_false_eq_true, if_true, List.cons_append, List.nil_append]
-      rw [decodeCurlArgs]
-      simp only [if_true]
-      rw [decodeCurlArgs]
-      simp only [show ¬ (([45, 88] : Bytes) = [45, 72]) by decide, if_false, if_true]
-      rw [htail]
-      refine ⟨_, rfl, ?_⟩
-      simp [Curl.effMethod, hm, sGET, List.append_assoc]
-    · simp only [hm, hb, sGET, ne_eq, not_false_eq_true, if_true, if_false, List.cons_append, List.nil_append]
-      rw [decodeCurlArgs]
-      simp only [show ¬ (([45, 88] : Bytes) = [45, 72]) by decide, if_false, if_true]
-      rw [htail]
-      refine ⟨_, rfl, ?_⟩
-      cases d with
-      | none => simp [hb] at hd
-      | some v => simp [Curl.effMethod, hm, hb, sGET]
+  obtain ⟨rs, hrs⟩ := dec_resolve p addr r
+    (curlHeaderArgs (popHeaders r.host r.headers) ++ (methodArgs r ++ r.url :: dataArgs d)) {}
+  have hdec : decodeCurl (curlArgs p addr r ++ dataArgs d) =
+      decodeCurlArgs (dataArgs d) .none
+        { method := if r.method ≠ sGET then some r.method else if r.body ≠ .none then some sGET else none,
+          headers := ((popHeaders r.host r.headers).filter (fun h => lname h.1 ≠ sAE)).map headerArg ++
+            (if r.method ≠ sGET ∧ r.body = .none then [sCL0] else []),
+          compressed := (popHeaders r.host r.headers).any (fun h => lname h.1 = sAE),
+          resolve := rs, data := none, urls := [r.url] } := by
+    rw [curlArgs_split]
+    simp only [decodeCurl, List.cons_append, List.nil_append, List.append_assoc]
+    rw [hrs, dec_headers, dec_method]
+    rw [dec_url _ _ _ hurl]
+    simp
+  rw [hdec]
+  cases d with
+  | none =>
+    have hb : r.body = .none := by
+      cases hbb : r.body <;> simp [hbb] at hd ⊢
+    simp only [dataArgs, decodeCurlArgs]
+    refine ⟨_, rfl, ?_, rfl, rfl, rfl, rfl⟩
+    by_cases hm : r.method = sGET
+    · simp [Curl.effMethod, hm, hb]
+    · simp [Curl.effMethod, hm]
+  | some v =>
+    have hb : r.body ≠ .none := by
+      intro hbb; simp [hbb] at hd
+    simp only [dataArgs]
+    rw [dec_D]
+    simp only [decodeCurlArgs]
+    refine ⟨_, rfl, ?_, rfl, rfl, rfl, rfl⟩
+    by_cases hm : r.method = sGET
+    · simp [Curl.effMethod, hm, hb]
+    · simp [Curl.effMethod, hm]
+
+/-- without `-X GET`, a GET request with a body would be sent as POST (the defect fixed in /repo): curl's default -/
+example : (({ data := some [120] } : Curl).effMethod) = [80, 79, 83, 84] := by decide
 
 /-! ### httpie -/
 
@@ -288,15 +233,17 @@ theorem httpie_no_body (hex : Bool) (r : Req) (hb : r.body = .none) :
 
 theorem httpie_body_plain (hex : Bool) (r : Req) (t : Bytes) (hb : r.body = .text t) (hc : hasCtl t = false) :
     ∃ cmd, httpieCommand r = some cmd ∧ run hex cmd = some ⟨httpieArgs r, some (t ++ [10])⟩ := by
-  refine ⟨_, by simp [httpieCommand, hb], ?_⟩
+  refine ⟨joinSp ((httpieArgs r).map quote) ++ [32, 60, 60, 60, 32] ++ contentForConsole t,
+    by simp [httpieCommand, hb], ?_⟩
   rw [cfc_plain t hc]
   exact run_here_q hex _ t
 
 theorem httpie_body_ctl_bash (r : Req) (t : Bytes) (hb : r.body = .text t) (hc : hasCtl t = true) :
     ∃ cmd, httpieCommand r = some cmd ∧ run true cmd = some ⟨httpieArgs r, some (stripNl t ++ [10])⟩ := by
-  refine ⟨_, by simp [httpieCommand, hb], ?_⟩
+  refine ⟨joinSp ((httpieArgs r).map quote) ++ [32, 60, 60, 60, 32] ++ contentForConsole t,
+    by simp [httpieCommand, hb], ?_⟩
   rw [cfc_ctl t hc]
-  exact run_here_s true _ _ t (printf_esc_hex t)
+  exact run_here_s true _ _ t (printf_escText_hex t) (escText_head t)
 
 /-- httpie's argv is `http METHOD URL` followed by one `name: value` item per remaining header -/
 theorem httpie_argv_shape (r : Req) :
